@@ -1,6 +1,9 @@
 #!/bin/bash
 # Build the verification driver against /repo's current working tree.
-# Everything is offline: module cache only.
+# Everything is offline: module cache only.  The driver is built with
+# -tags verif and a build overlay that replaces the third-party package
+# github.com/tailscale/goexpect by a synchronous stand-in
+# (harness/overlay/fakeexpect); /repo itself is not touched.
 set -e
 cd "$(dirname "$0")/harness"
 export GOFLAGS=-mod=mod GOPROXY=off GOSUMDB=off GOTOOLCHAIN=local
@@ -10,8 +13,18 @@ cp /repo/go/go.sum go.sum.repo 2>/dev/null || true
 if [ -f go.sum ]; then sort -u go.sum go.sum.repo > go.sum.new && mv go.sum.new go.sum; else cp go.sum.repo go.sum; fi
 rm -f go.sum.repo
 mkdir -p ../.build/bin
-go build -o ../.build/verif ./cmd/verif
-# the repository's own binaries (used by process-level checks)
+EXPDIR=$(go list -m -f '{{.Dir}}' github.com/tailscale/goexpect)
+OV=$(pwd)/overlay/fakeexpect
+cat > ../.build/overlay.json <<EOJ
+{"Replace": {
+ "$EXPDIR/expect.go": "$OV/expect.go",
+ "$EXPDIR/codes.go": "$OV/empty.go",
+ "$EXPDIR/codes_string.go": "$OV/empty.go"
+}}
+EOJ
+go build -tags verif -overlay ../.build/overlay.json -o ../.build/verif ./cmd/verif
+# the repository's own binaries (used by process-level checks), built
+# without any overlay
 if [ "$1" = "all" ]; then
   (cd /repo/go && go build -o /verif/.build/bin/ ./cmd/...)
 fi
